@@ -166,6 +166,7 @@ unsigned long env_sc_calls[ENV_NSC];
 int env_fail_next_evfd_errno;
 int (*env_eintr_hook)(const char *what, int fd);
 int env_pipe_size;
+int env_check_close = 1;
 
 static int sc_fails(int sc)
 {
@@ -304,6 +305,9 @@ int ivw_close(int fd)
 	if (env_thr.point)
 		env_thr.point("close", fd);
 	if (fd >= 0 && fd < MAXFD) {
+		if (!fdk[fd] && env_check_close && mc_in_child())
+			mc_fail("close-unowned", "the library closed descriptor %d, which it does not own (never created by it, or already closed by it: "
+				"a double close can destroy a descriptor another thread has just been given)", fd);
 		fdk[fd] = 0;
 		tfd[fd].armed = 0;
 	}
@@ -537,7 +541,12 @@ int ivw_open(const char *path, int flags, ...)
 	va_start(ap, flags);
 	mode = va_arg(ap, int);
 	va_end(ap);
-	return open(path, flags, mode);
+	{
+		int r = open(path, flags, mode);
+		if (r >= 0)
+			set_kind(r, ENV_FD_OTHER);
+		return r;
+	}
 }
 
 int ivw_dup2(int a, int b)
@@ -977,7 +986,7 @@ const char *__ubsan_default_options(void)
 }
 const char *__tsan_default_options(void)
 {
-	return "exitcode=44:halt_on_error=1:second_deadlock_stack=1:report_signal_unsafe=0";
+	return "exitcode=44:halt_on_error=0:second_deadlock_stack=1:report_signal_unsafe=0";
 }
 
 /* C14 allows exactly these idempotent one-way feature-detection flags */
